@@ -467,6 +467,17 @@ class Effects:
                         # method of a fresh (just created) object: its effects on that object are not document effects
                         ev.fresh = True
                     evs.append(ev)
+                    # virtual dispatch (class-hierarchy analysis): `self.m()` in a method of C may run an override of m
+                    # defined in a subclass of C that inherits the calling method
+                    if isinstance(fn.value, ast.Name) and fn.value.id in ("self", "cls") and f.cls is not None \
+                            and a[1].cls is not None and not recv_fresh:
+                        for sub in self.prog.subclasses(f.cls):
+                            g = sub.methods.get(meth)
+                            if g is None or g is a[1] or g.kind != a[1].kind:
+                                continue
+                            if self.prog.lookup(sub, f.name) is not f:
+                                continue  # the subclass overrides the caller as well
+                            evs.append(Event(PURE, "call (override in %s)" % sub.name, f.file, n.lineno, callee=g))
                 elif a[0] == "class":
                     handled = True
                     for g in (self.prog.lookup(a[1], "__init__"), self.prog.lookup(a[1], "__new__")):
